@@ -684,15 +684,19 @@ def rc_filter(report):
     for fname, nm in (("applyRCFilter", "rcOrderForward"), ("applyInverseRCFilter", "rcOrderInverse")):
         g = find_func(rp, fname)
         expr = None
-        for n in ast.walk(g):
+        params = [a.arg for a in f.args.args] if f is not None else []
+        for n in ast.walk(g) if g is not None else []:
             if isinstance(n, ast.Call) and isinstance(n.func, ast.Name) and n.func.id == "_rcFilter":
                 for k in n.keywords:
                     if k.arg == "order":
                         expr = P("int").e(k.value)
+                if expr is None and "order" in params and params.index("order") < len(n.args):
+                    expr = P("int").e(n.args[params.index("order")])       # handed over positionally
         if expr is None:
-            report.append(f"{nm}: order keyword not found")
-            expr = "order"
-        lines.append(f"def {nm} (order : ℤ) : ℤ := {expr}")
+            # never guess: the last known good definition is kept and the correspondence check alone ties it to the code
+            lines.append(keep_golden("KReal.lean", nm, report, f"the order handed to _rcFilter by {fname} was not located"))
+        else:
+            lines.append(f"def {nm} (order : ℤ) : ℤ := {expr}")
     return lines
 
 
